@@ -284,6 +284,61 @@ fn tie_bytes(mu: f64, sigma: f64, sigmin: f64, base: [u8; 9], sign: u8) -> [u8; 
     t[..7].try_into().unwrap()
 }
 
+/// Child of the deep-rejection leg: ONE sampler call on a stream that makes the first `k`
+/// candidates fail the Bernoulli test (0xff bytes) and then continues honestly, on the main
+/// thread or on a spawned thread with the default 2 MiB stack. Prints nothing; exit code 0.
+pub fn deep_child(ctx: &Ctx, rep: &mut Report) {
+    let k: usize = ctx.args.first().and_then(|s| s.parse().ok()).unwrap_or(1000);
+    let spawned = ctx.args.get(1).map(|s| s == "thread").unwrap_or(false);
+    let run = move || {
+        let mut prefix = Vec::with_capacity(17 * k);
+        for _ in 0..k {
+            prefix.extend_from_slice(&[0x55u8; 9]);
+            prefix.push(1);
+            prefix.extend_from_slice(&[0xffu8; 7]);
+        }
+        let mut bs = ByteStream { prefix, pos: 0, honest: rng_for(1, "c09-deep"), honest_draws: 0, budget: 17 * 10_000 };
+        sp::sampler_z(0.3, 1.5, SIGMIN_512, &mut bs)
+    };
+    let z = if spawned { std::thread::spawn(run).join().unwrap_or(i16::MIN) } else { run() };
+    rep.evaluations += 1;
+    rep.count("deep_rejection_child_returned", 1);
+    rep.stat_max("deep_rejection_sample", z as f64);
+}
+
+/// Totality on LONG rejection chains, in child processes (a stack overflow aborts the process
+/// and cannot be caught): 10^3 .. 3*10^6 consecutive rejected candidates inside one call.
+pub fn deep_rejection(ctx: &Ctx, rep: &mut Report) {
+    let exe = std::env::current_exe().expect("exe");
+    let ks: Vec<usize> = if ctx.thorough() { vec![1000, 10_000, 100_000, 1_000_000, 3_000_000, 10_000_000] } else { vec![1000, 10_000, 100_000, 1_000_000, 3_000_000] };
+    for &k in &ks {
+        for mode in ["main", "thread"] {
+            rep.evaluations += 1;
+            let out = std::process::Command::new(&exe).args(["run", "C09", "deep-child", "--seed", "1", "--", &k.to_string(), mode]).output();
+            match out {
+                Err(e) => rep.inconclusive(format!("cannot spawn the deep-rejection child: {}", e)),
+                Ok(o) => {
+                    use std::os::unix::process::ExitStatusExt;
+                    let err = String::from_utf8_lossy(&o.stderr).to_string();
+                    if o.status.success() {
+                        rep.count("deep_rejection_chains_survived", 1);
+                        rep.nontrivial(format!("deep|{}|{}", k, mode).as_bytes());
+                    } else if err.contains("stack overflow") || matches!(o.status.signal(), Some(6) | Some(11)) {
+                        rep.violation(
+                            "sampler_z:process-aborted-on-a-long-rejection-chain",
+                            format!("a single sampler_z call whose first {} candidates are rejected aborted the process ({} thread; status {:?}; stderr: {})", k, mode, o.status, err.lines().last().unwrap_or("").chars().take(160).collect::<String>()),
+                            json!({"kind": "deep", "k": k, "mode": mode}),
+                        );
+                    } else {
+                        rep.inconclusive(format!("deep-rejection child (k = {}) ended with {:?}: {}", k, o.status, err.lines().last().unwrap_or("")));
+                    }
+                }
+            }
+        }
+    }
+    rep.require("deep_rejection_chains_survived", 1);
+}
+
 pub fn totality(ctx: &Ctx, rep: &mut Report) {
     let mus: Vec<f64> = vec![0.0, 0.3, -0.3, 0.5, -0.5, 1e-12, 0.999999999, -91.90471153063714, 12345.678, -20000.3, 7.0, -1.0];
     let sigmas: Vec<(f64, f64)> = vec![
